@@ -42,8 +42,13 @@ type PhCase struct {
 	Elem int    `json:"elem"` // index inside a string list, -1 otherwise
 	Src  string `json:"src"`  // env | property
 	Mode string `json:"mode"` // see the p* constants
-	Name string `json:"name"` // variable name / property key
-	File string `json:"file"` // property file base name (inside the per-process temp dir)
+	// Name is the variable name / property key, File the property file's path below the per-process temp dir (may hold
+	// sub-directories). Both are drawn by drawName / drawPropFile (names_test.go): plain [A-Za-z0-9_.] spellings in half
+	// of the cases, else with interior blanks / tabs, dots, dashes, other punctuation, non-ASCII letters. Pad is the
+	// padding inside the braces (${ env : NAME }), "" = none.
+	Name string `json:"name"`
+	File string `json:"file"`
+	Pad  string `json:"pad,omitempty"`
 	From int    `json:"from"` // embedded: text[From:To] goes into the variable
 	To   int    `json:"to"`   //
 	Text string `json:"text"` // invalid_text: what the variable holds
@@ -119,7 +124,7 @@ func nearMisses(name string, flip int) (caseVariants, affixed []string) {
 	}
 	add(&affixed, name+"_")
 	add(&affixed, name+"2")
-	add(&affixed, name[:len(name)-1])
+	add(&affixed, trimLastRune(name))
 	add(&affixed, "X"+name)
 	return
 }
@@ -233,8 +238,9 @@ func genPh(r *vf.Run) func(t *rapid.T) PhCase {
 		c.Conf = cg.Encode(root)
 
 		c.Src = rapid.SampledFrom([]string{"env", "property"}).Draw(t, "src")
-		c.Name = rapid.SampledFrom([]string{"VERIF_C17_A", "VERIF_C17_b", "verif_c17_val", "V17"}).Draw(t, "name")
-		c.File = rapid.SampledFrom([]string{"a.properties", "secret.prop", "x"}).Draw(t, "file")
+		c.Name = drawName(t, []string{"VERIF_C17_A", "VERIF_C17_b", "verif_c17_val", "V17"}, "name")
+		c.File = drawPropFile(t, []string{"a.properties", "secret.prop", "x"}, "file")
+		c.Pad = drawPad(t)
 		modes := []string{pWhole, pWhole, pWhole, pWhole, pWhole, pWhole}
 		if embeddable(c.Class) && len(text) > 0 {
 			modes = append(modes, pEmbedded, pEmbedded)
@@ -293,17 +299,16 @@ func genPh(r *vf.Run) func(t *rapid.T) PhCase {
 // placeholder is the `${...}` text of a case.
 func (c PhCase) placeholder() string {
 	if c.Src == "env" {
-		return "${env:" + c.Name + "}"
+		return spell("env", c.Name, c.Pad)
 	}
 	if c.Mode == pNoSeparator {
-		return "${property:" + filepath.Join(propDir, c.File) + "}"
+		return spell("property", filepath.Join(propDir, filepath.FromSlash(c.File)), c.Pad)
 	}
-	return "${property:" + filepath.Join(propDir, c.File) + "#" + c.Name + "}"
+	return spell("property", filepath.Join(propDir, filepath.FromSlash(c.File))+"#"+c.Name, c.Pad)
 }
 
 // install makes the variable resolvable (or deliberately not), defines the decoy and returns the cleanup.
 func (c PhCase) install(value, decoyValue string) (func(), error) {
-	path := filepath.Join(propDir, c.File)
 	if c.Src == "env" {
 		var set []string
 		cleanup := func() {
@@ -327,6 +332,10 @@ func (c PhCase) install(value, decoyValue string) (func(), error) {
 		}
 		set = append(set, c.Name)
 		return cleanup, nil
+	}
+	path, err := propPath(c.File)
+	if err != nil {
+		return nil, err
 	}
 	if c.Mode == pMissingFile {
 		os.Remove(path)
@@ -446,6 +455,18 @@ func checkPh(c PhCase, o *vf.Obs) error {
 	o.ClassIf(class != cg.CString, "non_string_field")
 	o.ClassIf(c.Elem >= 0, "list_element")
 	o.Class(decoyClass(c.Name, c.Decoy))
+	file := c.File
+	if c.Src == "env" {
+		file = ""
+	}
+	how := "resolves"
+	switch {
+	case c.Mode == pInvalid:
+		how = "invalid_text"
+	case mustReject:
+		how = "names_nothing"
+	}
+	spellingClasses(o, c.Src, c.Name, file, c.Pad, how, class != cg.CString)
 	if c.Decoy != "" && c.Decoy != c.Name {
 		o.ClassIf(mustReject && c.Mode != pInvalid, "missing_with_"+decoyClass(c.Name, c.Decoy)+":"+c.Src)
 		o.ClassIf(!mustReject, "defined_with_"+decoyClass(c.Name, c.Decoy)+":"+c.Src)
